@@ -85,7 +85,8 @@ def gen_reconnect(tier, rng):
                     if not with_rc:
                         del cbs["on_reconnect"]
                     # the interval given as run_forever(reconnect=R), or (every 7th history) through websocket.setReconnect(R)
-                    yield {"callbacks": cbs, "attempts": atts, "reconnect": R, "reconnect_via_setter": (sum(seq) + k) % 7 == 0}
+                    yield {"callbacks": cbs, "attempts": atts, "reconnect": R, "reconnect_via_setter": (sum(seq) + k) % 7 == 0,
+                           "header_callable": (sum(seq) + k) % 5 == 0}
     # long outages: hundreds of consecutive failures (no bound on their number), then the server is back
     for n, kind in ((400, "refuse"), (700, "mixed"), (1100 if tier == "quick" else 3000, "lost")):
         fails = {"refuse": [{"refuse": True}], "mixed": [{"refuse": True}, {"status": 503}, {"evs": [("BC",)]}],
@@ -350,6 +351,20 @@ def judge_c15(T, sc, res, il):
             T.fail("spec", pub, f"{est_after_first} x {want_ev} for re-established connections", str(tr)[:300], {"site": "reconnect", "cls": "reconnect-callback"})
 
 
+def judge_header_callable(T, sc, res):
+    """a callable header option is evaluated before EVERY connection attempt: attempt k's request carries what call k returned"""
+    if not sc.get("header_callable"):
+        return
+    seen = []
+    for i, r in enumerate(res.get("requests", [])):
+        if r:
+            vals = [l.split(":", 1)[1].strip() for l in r.split("\r\n") if l.lower().startswith("x-attempt:")]
+            seen.append((i + 1, vals))
+    if any(vals != [str(k)] for k, vals in seen):
+        T.fail("spec", {"scenario": model_line(sc), "sc": sc}, "request of attempt k carries X-Attempt: k", str(seen)[:200], {"site": "setSock", "cls": "callable-header-stale"},
+               what="the callable `header` option was not evaluated afresh for a connection attempt")
+
+
 def reconnect_times_ok(sc, res):
     """attempt k+1 starts exactly R after the end of attempt k (loss time)"""
     R = sc["reconnect"]
@@ -380,6 +395,7 @@ def run(ctx, which="C13"):
         if which == "C15":
             judge_c14(T, sc, res, il)
             judge_c15(T, sc, res, il)
+            judge_header_callable(T, sc, res)
             if not res.get("stuck") and not any(m == "close" for m in sc["callbacks"].values()) \
                     and not any(e[0] == "T" for a in sc["attempts"] if "evs" in a for e in a["evs"]):
                 exp = reconnect_times_ok(sc, res)
@@ -434,6 +450,16 @@ def bursts(ctx, T):
                        what="frames that arrived in one segment were not all delivered at once")
 
 
+    # frames that arrive in the same TLS record as the 101 response (a server that greets at once): already decrypted when the loop starts
+    greet = server_frame(1, b"hello") + server_frame(9, b"g") + server_frame(1, b"world")
+    sim = {"scheme": "wss", "callbacks": {c: "ret" for c in CBS}, "attempts": [{"events": [[60.0, "D", server_frame(8, b"").hex()]], "tls": True, "glue": greet.hex()}],
+           "args": {}, "closer": [], "runs": 1}
+    res = run_app(sim)
+    times = [ev[0] for ev in res["trace"] if ev[1] in ("data", "message", "ping", "pong")]
+    T.case(("burst", "with-handshake-record"), bucket="burst", sample={"variant": "greeting in the handshake's TLS record", "times": times})
+    if len(times) != 5 or any(abs(t - 0.0) > 1e-9 for t in times):
+        T.fail("spec", {"kind": "burst2", "sim": sim}, "5 callbacks at t=0", str(times), {"site": "dispatcher", "cls": "late-delivery", "variant": "handshake-record"},
+               what="frames decrypted together with the handshake response were not delivered until further traffic came")
     # the same for a frame larger than one read followed by small ones, and for a frame cut across two segments whose
     # second segment also carries the next frames: nothing may be left waiting in a user-space buffer
     big = server_frame(2, bytes(range(256)) * 80) + server_frame(1, b"after") + server_frame(9, b"pp")
@@ -612,6 +638,9 @@ def external_dispatcher(ctx, T, rng):
         ([{"events": [[1, "D", server_frame(1, b"x").hex()], [2, "D", server_frame(8, b"\x03\xe8").hex()]]}], 0),
         ([{"events": [[1, "EOF"]]}, {"events": [[1, "D", server_frame(1, b"y").hex()], [2, "D", server_frame(8, b"").hex()]]}], 2),
         ([{"refuse": True}, {"events": [[1, "EOF"]]}, {"events": [[1, "D", server_frame(8, b"").hex()]]}], 3),   # with an external loop only ConnectionClosed is routed to the library
+        # a loss, then attempts that fail (rejected, refused, unreachable), then the server is back: every failed attempt schedules the next one
+        ([{"events": [[1, "D", server_frame(1, b"c1").hex()], [2, "EOF"]]}, {"status": 503}, {"events": [[1, "D", server_frame(1, b"c2").hex()], [2, "D", server_frame(8, b"").hex()]]}], 2),
+        ([{"events": [[1, "EOF"]]}, {"refuse": True}, {"status": 500}, {"unreachable": 113}, {"events": [[1, "D", server_frame(8, b"\x03\xe8").hex()]]}], 1),
     ]
     for atts, R in cases:
         sim = {"callbacks": dict(allret), "attempts": atts, "args": ({"reconnect": R} if R else {}), "custom_dispatcher": True, "runs": 1}
